@@ -103,13 +103,25 @@ func vMergeTwo(focus string) {
 		bits = append(bits, b)
 	}
 	want, wantNums := sMergeSpecs(specs, bits)
+	var z ZapPlugin
+	path := vP("merged.zap")
 	if len(want.docs) == 0 {
 		if vSkipKnown("C05-nothing-survives") {
+			// recorded finding: the renumbering lists are missing and the result cannot be queried. What does
+			// hold in this region stays checked: no error, the reported size, every handle closed, Count 0.
+			_, size, err := z.Merge(segs, drops, path, nil, nil)
+			vAssert(err == nil, "zero-merge-err")
+			vAssert(size == uint64(len(vFSBytes(path))), "zero-size")
+			vAssert(vFSOpenHandles() == opened, "zero-merge-closed")
+			vAssert(len(segs) == nIn && segs[0] != nil, "inputs-alive")
+			m, err := z.Open(path)
+			vAssert(err == nil, "zero-open")
+			vAssert(m.Count() == 0, "zero-count")
+			vAssert(m.Close() == nil, "zero-close")
+			vAssert(vFSOpenHandles() == opened, "zero-closed-again")
 			return
 		}
 	}
-	var z ZapPlugin
-	path := vP("merged.zap")
 	nums, size, err := z.Merge(segs, drops, path, nil, nil)
 	vAssert(err == nil, "merge-err")
 	vAssert(len(nums) == nIn, "nums-len")
